@@ -1,3 +1,72 @@
-From DSG Require Import Base Dsg Sel.
-Theorem C02_placeholder : True. Proof. exact I. Qed.
-Print Assumptions C02_placeholder.
+(* C02 — an architecture instance is exactly the derivation closure of the choices made. *)
+From DSG Require Import Base Dsg Sel SelP.
+
+(* the executable closure computes exactly the declarative derivation closure *)
+Theorem C02_closure_is_reach : forall g s W, closure g s = Some W -> forall n, In n W <-> Reach g s n.
+Proof. exact closure_spec. Qed.
+Print Assumptions C02_closure_is_reach.
+
+(* resolving in any legal order until no active choice is left: the nodes are exactly the closure (nothing required is
+   missing, nothing unreachable remains), all start nodes are there, no choice node is left *)
+Theorem C02_instance_is_closure : forall g s W I,
+  Run g s -> closure g s = Some W -> pending g s W = [] -> inst_nodes g s = Some I ->
+  (forall n, In n I <-> (Reach g s n /\ is_choice g n = false)) /\
+  (forall n, In n (start g) -> is_choice g n = false -> In n I) /\
+  (forall n, In n I -> is_choice g n = false) /\
+  (final_ok g s W = true -> Adm g s).
+Proof. exact run_final_is_closure. Qed.
+Print Assumptions C02_instance_is_closure.
+
+(* the end result does not depend on the order in which the active choices were taken *)
+Theorem C02_order_independent : forall g s s',
+  Run g s -> Run g s' -> same s s' -> forall n, Reach g s n <-> Reach g s' n.
+Proof. exact run_order_independent. Qed.
+Print Assumptions C02_order_independent.
+
+(* feasible instances reachable by resolving = assignments enumerated and filtered by incompatibility *)
+Theorem C02_feasible_set_sound : forall g l, enum_adm g = Some l -> forall s, In s l -> Adm g s.
+Proof. exact enum_adm_sound. Qed.
+Print Assumptions C02_feasible_set_sound.
+
+Theorem C02_feasible_set_complete : forall g l, enum_adm g = Some l -> forall s, Adm g s -> exists s', In s' l /\ same s' s.
+Proof. exact enum_adm_complete. Qed.
+Print Assumptions C02_feasible_set_complete.
+
+Theorem C02_feasible_set_distinct : forall g l, opts_nodup g -> enum_adm g = Some l ->
+  ForallOrdPairs (fun a b => ~ same a b) l.
+Proof. exact enum_adm_distinct. Qed.
+Print Assumptions C02_feasible_set_distinct.
+
+Theorem C02_admissible_is_resolvable : forall g l, enum_adm g = Some l ->
+  forall s, Adm g s -> exists s', Run g s' /\ same s' s.
+Proof. exact adm_has_run. Qed.
+Print Assumptions C02_admissible_is_resolvable.
+
+Theorem C02_monotone : forall g s s', sub s s' -> forall n, Reach g s n -> Reach g s' n.
+Proof. exact Reach_mono. Qed.
+Print Assumptions C02_monotone.
+
+(* non-vacuity: the theory-page style graph: 0 -> choice 10 {1,2}; 1 -> choice 11 {3,4}; 2 -> 5; incompat (4,5) unused *)
+Definition ex_g : dsg := {|
+  nodes := [(0,Generic);(1,Generic);(2,Generic);(3,Generic);(4,Generic);(5,Generic);(10,SelChoice);(11,SelChoice)]%N;
+  edges := [((0,10),Derives);((10,1),Derives);((10,2),Derives);((1,11),Derives);((11,3),Derives);((11,4),Derives);
+            ((2,5),Derives);((3,5),Incompat);((5,3),Incompat)]%N;
+  start := [0%N]; cons := [] |}.
+Example C02_ex_enum : enum_adm ex_g = Some [[(10,1);(11,3)];[(10,1);(11,4)];[(10,2)]]%N.
+Proof. vm_compute. reflexivity. Qed.
+Example C02_ex_inst : inst_nodes ex_g [(10,2)]%N = Some [0;2;5]%N.
+Proof. vm_compute. reflexivity. Qed.
+Example C02_ex_run : Run ex_g ([] ++ [(10,1)] ++ [(11,4)])%N.
+Proof.
+  rewrite app_assoc. apply Run_step; [apply (Run_step ex_g [] 10 1 (Run_nil _))| | | |].
+  - apply R_edge with (m := 0%N); [apply R_start; left; reflexivity|reflexivity|vm_compute; tauto].
+  - reflexivity.
+  - intros [].
+  - vm_compute; tauto.
+  - apply R_edge with (m := 1%N); [|reflexivity|vm_compute; tauto].
+    apply R_sel with (c := 10%N); [|reflexivity|reflexivity|vm_compute; tauto].
+    apply R_edge with (m := 0%N); [apply R_start; left; reflexivity|reflexivity|vm_compute; tauto].
+  - reflexivity.
+  - simpl. intros [H|[]]. discriminate.
+  - vm_compute; tauto.
+Qed.
